@@ -112,9 +112,13 @@ def gen_spec(rng, max_scalars=30, max_lmis=4, lmi_kind=None):
                 dups.append(["psd", rng.randrange(len(blocks[0]["psd"]))])
     # a function whose CLASS constraints contain an LMI that is not symmetric as written
     classes = []
-    if rng.random() < 0.2:
+    if rng.random() < 0.3:
+        # ConvexQGFunction / RsiEbFunction without a declared stationary point create one (a leaf point AND a leaf
+        # expression) while the class constraints are generated, i.e. AFTER the objective leaf: the objective is then
+        # not the last entry of F (seed C14-10)
         classes.append(dict(cls=rng.choice(["SymmetricLinearOperator", "SmoothStronglyConvexQuadraticFunction",
-                                            "SkewSymmetricLinearOperator"]),
+                                            "SkewSymmetricLinearOperator", "ConvexQGFunction", "RsiEbFunction",
+                                            "ConvexQGFunction"]),
                             L=rng.choice([1.0, 2.0]), mu=rng.choice([0.0, 0.25, 0.5]),
                             pts=[rng.randrange(npts) for _ in range(rng.choice([1, 2, 2]))]))
     return dict(np=npts, nf=nf, metrics=metrics, pep=blocks[0], funcs=blocks[1:], dups=dups, classes=classes,
@@ -199,7 +203,7 @@ def build_pep(spec):
         import PEPit.functions as PF
         import PEPit.operators as PO
         cls = getattr(PO, c["cls"], None) or getattr(PF, c["cls"])
-        kw = dict(L=c["L"]) if c["cls"] == "SkewSymmetricLinearOperator" else dict(L=c["L"], mu=c["mu"])
+        kw = dict(L=c["L"]) if c["cls"] in ("SkewSymmetricLinearOperator", "ConvexQGFunction") else dict(L=c["L"], mu=c["mu"])
         g = pep.declare_function(cls, **kw)
         for i in c["pts"]:
             g.gradient(P[i])
